@@ -7,23 +7,33 @@
 (* whatever it compares equal to.  Targets T1 and T2 are distinct objects  *)
 (* that compare EQUAL (value-based __eq__ / __hash__), T3 differs; all     *)
 (* three hold the same child, the expression is "child.value".             *)
-(*   cnt[t][h]   outstanding registrations of handler h made on target t   *)
+(*   cnt[t][h][g] outstanding registrations of handler h made on target t   *)
+(*               for graph g: 1 = "child.value", 2 = "tag" (a trait of the  *)
+(*               target itself).  observe(h, ["child.value", "tag"]) makes  *)
+(*               both registrations in one call, remove=True undoes both -  *)
+(*               or, when one of them is missing, NEITHER                    *)
 (*   alive       targets not yet garbage-collected                         *)
 (***************************************************************************)
 EXTENDS Integers, FiniteSets, TLC
 Targets == {"T1", "T2", "T3"}
 Handlers == {"H1", "H2"}
+Graphs == {1, 2}
+GraphsOf(mask) == IF mask = 3 THEN {1, 2} ELSE {mask}          \* mask 1 / 2: one expression; 3: the list of both
 Out(st, exc, calls) == [st |-> st, exc |-> exc, calls |-> calls]
 NoCalls == [h \in Handlers |-> 0]
 \* a change of the shared child's value: every handler is called once per LIVE target it is registered on (however often
 \* it was registered there)
-CallsOnChange(st) == [h \in Handlers |-> Cardinality({t \in st.alive : st.cnt[t][h] > 0})]
-Apply(st, op, t, h) ==
-  CASE op = "reg" -> Out([st EXCEPT !.cnt[t][h] = @ + 1], "", NoCalls)
-    [] op = "unreg" -> IF st.cnt[t][h] = 0 THEN Out(st, "NotifierNotFound", NoCalls)
-                       ELSE Out([st EXCEPT !.cnt[t][h] = @ - 1], "", NoCalls)
+CallsOnChange(st) == [h \in Handlers |-> Cardinality({t \in st.alive : st.cnt[t][h][1] > 0})]
+\* a change of the target's own trait `tag`: the handlers registered on that target for it
+CallsOnTag(st, t) == [h \in Handlers |-> IF t \in st.alive /\ st.cnt[t][h][2] > 0 THEN 1 ELSE 0]
+Apply(st, op, t, h, mask) ==
+  CASE op = "reg" -> Out([st EXCEPT !.cnt[t][h] = [g \in Graphs |-> IF g \in GraphsOf(mask) THEN @[g] + 1 ELSE @[g]]], "", NoCalls)
+    \* a removal that cannot remove every graph of the call removes none (failure atomicity across the graphs of one call)
+    [] op = "unreg" -> IF \E g \in GraphsOf(mask) : st.cnt[t][h][g] = 0 THEN Out(st, "NotifierNotFound", NoCalls)
+                       ELSE Out([st EXCEPT !.cnt[t][h] = [g \in Graphs |-> IF g \in GraphsOf(mask) THEN @[g] - 1 ELSE @[g]]], "", NoCalls)
     [] op = "change" -> Out(st, "", CallsOnChange(st))
+    [] op = "changetag" -> Out(st, "", CallsOnTag(st, t))
     \* the target is dropped and collected: its registrations are gone with it, nobody else's
-    [] op = "collect" -> Out([st EXCEPT !.alive = @ \ {t}, !.cnt[t] = [x \in Handlers |-> 0]], "", NoCalls)
-St0 == [cnt |-> [t \in Targets |-> [h \in Handlers |-> 0]], alive |-> Targets]
+    [] op = "collect" -> Out([st EXCEPT !.alive = @ \ {t}, !.cnt[t] = [x \in Handlers |-> [g \in Graphs |-> 0]]], "", NoCalls)
+St0 == [cnt |-> [t \in Targets |-> [h \in Handlers |-> [g \in Graphs |-> 0]]], alive |-> Targets]
 =============================================================================
